@@ -51,7 +51,7 @@ static RunPlan gen_parityinv(uint64_t seed, int tier)
 			break;
 		case 6:
 			s.cmd = "fix";
-			if (rng.chance(1, 3)) s.opts = { "-d", Config::level_name((int)rng.below(p.cfg.np), p.cfg.zmode) };
+			if (rng.chance(1, 3)) s.opts = { "-d", Config::level_name((int)rng.below(p.cfg.np), false) };
 			else if (rng.chance(1, 3)) s.opts = { "-m" };
 			else if (rng.chance(1, 3)) s.opts = { "-e" };
 			s = gen_sched(rng, s);
